@@ -449,6 +449,35 @@ def enabled(obj, model):
                                         ex.append(('tensor-value', 'label %r channel %r rep %d' % (v, c, q)))
                     return one(None, model, ex[:3])
                 add(('get_measurements_tensor', by), f_tensor)
+    # --- in-place sort changes only the object it is called on -------------------------------------------------
+    # (aliasing between a derived object and its source would be hidden by the deep copies the search
+    # works on, so it is probed explicitly; no new state is produced)
+    srt = [k for k in obs_by if sorted(range(len(rows)), key=lambda i: _plain(obj.obs_descriptors[k][i])) != list(range(len(rows)))]
+    if srt and len(rows) >= 2:
+        derivs = {'copy': lambda o: o.copy()}
+        if ch_by:
+            cb = ch_by[0]
+            derivs['split_channel'] = lambda o, cb=cb: o.split_channel(cb)[0]
+            derivs['subset_channel'] = lambda o, cb=cb: o.subset_channel(cb, _plain(o.channel_descriptors[cb][0]))
+        derivs['subset_obs'] = lambda o: o.subset_obs('oid', [r for r, _ in rows])
+        if temporal:
+            derivs['subset_time'] = lambda o: o.subset_time('time', min(times), max(times))
+            derivs['split_time'] = lambda o: o.split_time('time')[0]
+
+        def mk_twin(dname, on, by=srt[0]):
+            def f(o):
+                child = derivs[dname](o)
+                target, other = (child, o) if on == 'derived' else (o, child)
+                before = labels(other)
+                target.sort_by(by)
+                ex = [('other-object-' + k, msg) for k, msg in invariant(other, model)]
+                if not ex and labels(other) != before:
+                    ex.append(('other-object-changed', 'sort_by on the %s object reordered the other one' % on))
+                return one(None, model, ex)
+            return f
+        for dname in derivs:
+            for on in ('derived', 'source'):
+                add(('twin', dname, 'sort_by', on), mk_twin(dname, on), 'in-place:sort_by')
     add(('copy',), lambda o: one((n := o.copy()), model, _expect(n, rows, cols, times) +
                                  ([] if type(n) is type(o) else [('wrong-type', repr(type(n)))])))
     return T
